@@ -367,6 +367,47 @@ theorem own_unique {own ext : List Param} (hnd : (names own).Nodup) (hext : ∀ 
   · exact nodup_names_eq hnd hp hq hname
   · exact absurd (mem_names.2 ⟨p, hp, hname.symm⟩) (hext q hq)
 
+/-- nothing is invented, whatever the body looks like (conditionals included): an offered name is an own
+    parameter, or is read by a pop/get, or is offered by the callee of a forwarding call that does not hard-code it -/
+theorem offered_source {P : Prog} {fuel : Nat} {fr : Frame} {wh : Where} {c : Callable} {R : List Param} {n : String}
+    (hb : frameBody P fr = some (wh, c)) (hR : resolveF (fuel + 1) P fr = .ok R) (hn : n ∈ names R) :
+    n ∈ names c.params ∨ (∃ u ∈ liveUses c.uses, ∃ p ∈ useDefs u, p.name = n) ∨
+      ∃ u ∈ liveUses c.uses, u.isForward = true ∧ n ∉ u.given ∧
+        ∃ fr' R', subFrame P wh u = some fr' ∧ resolveF fuel P fr' = .ok R' ∧ n ∈ names R' := by
+  simp only [resolveF, resolveBody, hb] at hR
+  unfold resolveCallable at hR
+  split at hR
+  · simp only [Out.ok.injEq] at hR
+    subst hR
+    exact Or.inl hn
+  · cases hcol : collect (resolveF fuel P) P wh (liveUses c.uses) ⟨[], []⟩ with
+    | crash => simp [hcol] at hR
+    | nofuel => simp [hcol] at hR
+    | ok a =>
+      simp only [hcol] at hR
+      cases hg : group a.lists with
+      | crash => simp [hg] at hR
+      | nofuel => simp [hg] at hR
+      | ok g =>
+        simp only [hg, Out.ok.injEq] at hR
+        subst hR
+        rw [names_append, List.mem_append] at hn
+        rcases hn with hn | hn
+        · exact Or.inl hn
+        · have h1 := (mem_names_filter_notin.1 hn).1
+          have h2 := (mem_names_filter_notin.1 h1).1
+          obtain ⟨l, hl, hnl⟩ := (group_names hg n).1 h2
+          obtain ⟨p, hp, hpn⟩ := mem_names.1 hnl
+          rcases collect_lists _ _ _ hcol l hl with h0 | ⟨u, hu, _, hdef, _⟩ | ⟨u, hu, hfw, h3⟩
+          · cases h0
+          · exact Or.inr (Or.inl ⟨u, hu, p, hdef ▸ hp, hpn⟩)
+          · rcases h3 with ⟨_, h4⟩ | ⟨fr', r, hsf, hr, h4⟩
+            · rw [h4] at hp; simp [removeGiven] at hp
+            · rw [h4] at hp
+              have hng := (List.mem_filter.1 hp).2
+              simp only [decide_eq_true_eq] at hng
+              exact Or.inr (Or.inr ⟨u, hu, hfw, hpn ▸ hng, fr', r, hsf, hr, mem_names.2 ⟨p, removeGiven_sub hp, hpn⟩⟩)
+
 theorem valid_good {P : Prog} {c : CId} (hc : c.valid P = true) : goodFrame P c.frame := by
   cases c with
   | entry i => simpa [CId.valid, CId.frame, goodFrame] using hc
